@@ -28,12 +28,14 @@ ASSUMPTIONS = [
 CONSTRUCTORS = ["Field(AnyArray(a))", "Field(a)", "from_raw", "makeField", "cast_domain", "real", "imag",
                 "binop", "mf_from_raw", "mf_from_dict", "full", "astype_same", "scalar_mul",
                 # source arrays that are ndarray SUBCLASS instances (user subclass, memory map)
-                "Field(a:subclass)", "makeField(a:subclass)", "AnyArray(a:subclass)", "makeField(a:memmap)"]
+                "Field(a:subclass)", "makeField(a:subclass)", "AnyArray(a:subclass)", "makeField(a:memmap)",
+                # zero-dimensional source arrays (scalar domain)
+                "from_raw(0d)", "makeField(0d)", "Field(0d)", "mf_from_raw(0d)"]
 ROOTS = ["source", "val", "raw", "asnumpy", "val.val"]
 
 DERIV_NP = ["view", "reshape", "ellipsis", "slice", "T", "asarray", "real", "ravel"]
 DERIV_AA = ["view", "reshape", "ellipsis", "slice", "T", "real", "val"]
-WRITES_NP = ["setitem0", "setall", "iadd", "ufunc_out", "copyto", "fill", "sort", "flat", "put", "imul", "place"]
+WRITES_NP = ["setitem0", "setall", "setempty", "iadd", "ufunc_out", "copyto", "fill", "sort", "flat", "put", "imul", "place"]
 WRITES_AA = ["setitem0", "setall", "iadd", "ufunc_out", "imul"]
 
 
@@ -51,6 +53,16 @@ def _mk(constructor, dtype):
     cplx = dtype == "c16"
     base = np.array([1.5, -2.0, 0.25]) + (1j * np.array([0.5, 1.0, -3.0]) if cplx else 0)
     a = np.array(base)   # fresh, owns its data
+    if constructor.endswith("(0d)"):
+        sd = ift.DomainTuple.scalar_domain()
+        z = np.array(base[0])          # 0-d, owns its data
+        if constructor.startswith("from_raw"):
+            return ift.Field.from_raw(sd, z), z
+        if constructor.startswith("makeField"):
+            return ift.makeField(sd, z), z
+        if constructor.startswith("mf_from_raw"):
+            return ift.MultiField.from_raw(ift.MultiDomain.make({"k": sd}), {"k": z}), z
+        return ift.Field(sd, z), z
     if constructor.endswith(":subclass)"):
         a = a.view(_SubArr)
         if constructor.startswith("Field("):
@@ -163,6 +175,8 @@ def _write(h, w):
         h[0] = v
     elif w == "setall":
         h[...] = v
+    elif w == "setempty":
+        h[()] = v
     elif w == "iadd":
         if aa:
             h += ift.AnyArray(np.ones(h.shape, dtype=h.dtype))
@@ -236,8 +250,8 @@ def run(case):
             h = _root(f, a, case["root"])
             for d in chain:
                 h = _derive(h, d)
-        except (KeyError, AttributeError, TypeError, ValueError):
-            continue
+        except (KeyError, AttributeError, TypeError, ValueError, IndexError):
+            continue   # derivation not applicable to this handle (e.g. slicing a 0-d array)
         wnames = WRITES_AA if isinstance(h, ift.AnyArray) else WRITES_NP
         wseqs = [(w,) for w in wnames]
         if len(chain) <= 1 and case["maxwrites"] >= 2:
